@@ -2,11 +2,14 @@ package props
 
 import (
 	"bytes"
+	"crypto/aes"
 	"encoding/hex"
 	"fmt"
 	"math/big"
 	"testing"
 
+	"github.com/emmansun/gmsm/padding"
+	"github.com/emmansun/gmsm/sm4"
 	"github.com/emmansun/gmsm/sm9"
 	"github.com/emmansun/gmsm/verifhook"
 
@@ -71,9 +74,9 @@ func genC10(r *sim.Rand, tier string) *sim.Program {
 		case 3, 4:
 			p.Add("wrap", u, r.Intn(1<<30), r.PickInt(1, 16, 32, 33, 64, 65, 97, 128, 225, 300, 300, 8161, 8200), r.Intn(4), r.Intn(1<<16))
 		case 5, 6, 7:
-			p.Add("enc", u, r.Intn(1<<30), r.Intn(5), r.Intn(2), r.Intn(6), r.Intn(1<<16)).WithB(r.Bytes(msgLen()))
+			p.Add("enc", u, r.Intn(1<<30), r.PickInt(0, 1, 2, 3, 4, 0, 1, 2, 3, 4, 5, 6, 7, 8), r.Intn(2), r.Intn(6), r.Intn(1<<16)).WithB(r.Bytes(msgLen()))
 		case 8:
-			p.Add("encall", u, r.Intn(1<<30), r.Intn(5), r.Intn(2)).WithB(r.Bytes(r.PickInt(1, 16, 33, 65)))
+			p.Add("encall", u, r.Intn(1<<30), r.PickInt(0, 1, 2, 3, 4, 0, 1, 2, 3, 4, 5, 6, 7, 8), r.Intn(2)).WithB(r.Bytes(r.PickInt(1, 16, 33, 65)))
 		case 9, 10:
 			p.Add("kx", u, (u+1)%nu, r.Intn(1<<30), r.PickInt(16, 16, 32, 48, 100, 100, 8200), r.Intn(2), r.Intn(7), r.Intn(3), r.Intn(1<<16), r.PickInt(0, 0, r.Intn(12)))
 		case 11:
@@ -97,7 +100,13 @@ type c10User struct {
 	enc        *sm9.EncryptPrivateKey
 }
 
-var c10Opts = []sm9.EncrypterOpts{sm9.DefaultEncrypterOpts, sm9.SM4ECBEncrypterOpts, sm9.SM4CBCEncrypterOpts, sm9.SM4CFBEncrypterOpts, sm9.SM4OFBEncrypterOpts}
+// modes 0..4: the predefined option values; 5..8: options an application builds itself (another cipher, key size and
+// padding scheme) - raw layout only, because the ASN.1 form names the mode but not the cipher
+var c10Opts = []sm9.EncrypterOpts{sm9.DefaultEncrypterOpts, sm9.SM4ECBEncrypterOpts, sm9.SM4CBCEncrypterOpts, sm9.SM4CFBEncrypterOpts, sm9.SM4OFBEncrypterOpts,
+	sm9.NewCBCEncrypterOpts(padding.NewISO9797M2Padding(16), aes.NewCipher, 32),
+	sm9.NewECBEncrypterOpts(padding.NewANSIX923Padding(16), aes.NewCipher, 16),
+	sm9.NewCFBEncrypterOpts(aes.NewCipher, 24),
+	sm9.NewOFBEncrypterOpts(sm4.NewCipher, 16)}
 
 func execC10(t *testing.T, p *sim.Program, c *sim.Ctx) {
 	verifhook.SetMaybeReadDecider(func() bool { return false })
@@ -441,8 +450,12 @@ func execC10(t *testing.T, p *sim.Program, c *sim.Ctx) {
 			if len(msg) == 0 {
 				msg = []byte{1}
 			}
-			mode := ((op.Int(2) % 5) + 5) % 5
+			mode := ((op.Int(2) % 9) + 9) % 9
 			asn1 := op.Int(3)%2 == 1
+			if mode >= 5 {
+				asn1 = false
+				c.Hit("probe:application-built-encrypter-options")
+			}
 			var ct []byte
 			var err error
 			reader := rd(op.Int(1), "enc")
@@ -456,8 +469,14 @@ func execC10(t *testing.T, p *sim.Program, c *sim.Ctx) {
 				return
 			}
 			c.Out("ct", ct)
+			// three ways in: the package functions, and the crypto.Decrypter method with either kind of options
 			dec := func(b []byte) ([]byte, error) {
-				if asn1 {
+				switch {
+				case asn1 && op.Int(1)%3 == 1:
+					return u.enc.Decrypt(nil, b, u.uid)
+				case op.Int(1)%3 == 2:
+					return u.enc.Decrypt(nil, b, &sm9.DecrypterOptsWithUID{UID: u.uid, EncrypterOpts: c10Opts[mode]})
+				case asn1:
 					return sm9.DecryptASN1(u.enc, u.uid, b)
 				}
 				return sm9.Decrypt(u.enc, u.uid, b, c10Opts[mode])
